@@ -580,11 +580,14 @@ func main() {
 		nTransitions.Add(as.steps)
 		nOpsExecuted.Add(as.steps)
 		b := as.bounds
+		var fams []string
+		for _, f := range b.families {
+			fams = append(fams, f.String())
+		}
 		bounds["alias"] = map[string]any{
 			"prior_backoffs": b.priors, "kinds_among_prior_backoffs": b.patterns, "prior_kinds": aliasOldKinds, "source_made_via": viaNames, "derived_pairs": shapeNames,
-			"second_derived_taken": "with the first | right before its first step", "jitter_answers": len(b.jits),
-			"steps_per_derived_backoffer": b.maxAB, "steps_per_derived_backoffer_when_source_steps": b.maxABwS, "steps_of_source": b.maxS,
-			"step_kinds": aliasStepKinds[:3], "steps_per_derived_backoffer_with_excluded_kind": b.maxABExcl,
+			"second_derived_taken": "with the first | right before its first step", "second_derived_taken_late_only_when_derived_from_the_first": b.lateOnlyChained, "jitter_answers": len(b.jits),
+			"step_sequence_families": fams, "step_kinds": aliasStepKinds,
 			"budget": "the total of D1 | D2 | S (if it steps) after its last step", "ending": "UpdateUsingForked of D1 | D2 into its parent (if it has one), then one back-off of the receiver and of the other derived back-offer",
 			"merge_into_top_of_parent_chain": b.farMerge,
 		}
@@ -621,8 +624,8 @@ func main() {
 			"part chains (no replay, oracle after every step on the same backoffer): for every kind (built-in + synthetic grid jitter mode x base x cap) every chain program single/alternate/halves of bounds.chains.len_* back-offs x jitter {min,max} per kind x " +
 			"budget {none, never reached, exactly the total at half of the chain, +1, half with weight 2, exactly the total at 7/8 of the chain} x per-call maximum x {Clone and Fork aside, Fork + UpdateUsingForked} every k-th step; its states = (program, position) pairs, its transitions = operations executed and judged; " +
 			"part alias (no replay, no deduplication, oracle after every operation): a source back-offer with bounds.alias.prior_backoffs prior back-offs of 1-3 kinds made directly / on a root it is forked from / half before and half after the fork / " +
-			"on a fork merged back, x two derived back-offers (bounds.alias.derived_pairs, the second taken at once or right before its first step) x every interleaving of 1..steps_per_derived_backoffer back-offs of each of them " +
-			"(and 0..steps_of_source of the source) x every kind of step_kinds per step x budget = exactly the total of one of them after its last step x optional UpdateUsingForked ending; after every operation every live back-offer is observed " +
+			"on a fork merged back, x two derived back-offers (bounds.alias.derived_pairs, the second taken at once or right before its first step) x every step sequence of bounds.alias.step_sequence_families (every interleaving of a, b back-offs of the two derived back-offers " +
+			"and s of the source, every step on every one of the first `kinds` entries of step_kinds) x budget = exactly the total of one of them after its last step x optional UpdateUsingForked ending; after every operation every live back-offer is observed " +
 			"and every back-offer the reference calls exhausted is probed with one more call (must be refused, report its own longest sleeper, change nothing); its states = distinct (budget, operation prefix) pairs, " +
 			"its transitions = operations executed and judged (probes included), non-trivial = states behind a back-off that follows the derivation",
 		"samples": samples.List(),
